@@ -13,6 +13,27 @@ Open Scope Z_scope.
 
 Definition absval (lo hi : Z) := Z.max (Z.abs lo) (Z.abs hi).
 
+(* Tactics that do not depend on the syntactic shape of the generated code:
+   every argument of bit_length is replaced by the canonical |lo| max |hi|
+   (by lia), every integer comparison is split, and what remains is linear
+   arithmetic.  They survive reorderings of operands, inlined temporaries,
+   augmented assignments and early returns in the Python source. *)
+Ltac split_cmp :=
+  repeat match goal with
+  | |- context [Z.ltb ?x ?y] => destruct (Z.ltb_spec x y)
+  | |- context [Z.leb ?x ?y] => destruct (Z.leb_spec x y)
+  | |- context [Z.geb ?x ?y] => destruct (Z.geb_spec x y)
+  | |- context [Z.gtb ?x ?y] => destruct (Z.gtb_spec x y)
+  | |- context [Z.eqb ?x ?y] => destruct (Z.eqb_spec x y)
+  end.
+
+Ltac canon_bit_length A :=
+  repeat match goal with
+  | |- context [bit_length ?e] =>
+    tryif constr_eq e A then fail
+    else (replace e with A by (subst A; lia))
+  end.
+
 (* what dom_to_width computes, as a closed formula *)
 Lemma dom_to_width_spec lo hi : lo <= hi ->
   dom_to_width (lo, hi) =
@@ -21,14 +42,14 @@ Lemma dom_to_width_spec lo hi : lo <= hi ->
         (if (lo <? 0) && (hi >=? 0) then 1 else 0)).
 Proof.
   intro Hle. unfold dom_to_width, absval.
-  set (a := Z.max (Z.abs lo) (Z.abs hi)).
-  pose proof (bit_length_nonneg a) as Hn.
-  pose proof (bit_length_zero a) as Hz.
-  destruct (Z.eqb_spec (bit_length a) 0) as [E|E].
-  - assert (a = 0) by (apply Hz; auto).
-    assert (lo = 0 /\ hi = 0) as [-> ->] by (unfold a in *; lia).
-    vm_compute. reflexivity.
-  - destruct ((lo <? 0) && (hi >=? 0)); f_equal; f_equal; lia.
+  set (A := Z.max (Z.abs lo) (Z.abs hi)).
+  canon_bit_length A.
+  pose proof (bit_length_nonneg A) as Hn.
+  pose proof (bit_length_zero A) as Hz.
+  assert (HA : A = 0 <-> lo = 0 /\ hi = 0) by (subst A; lia).
+  generalize dependent (bit_length A). intros B Hn Hz.
+  cbv zeta. split_cmp; cbn [andb orb negb]; cbv zeta beta iota;
+    try (exfalso; lia); repeat f_equal; lia.
 Qed.
 
 Theorem dom_to_width_total lo hi : lo <= hi ->
@@ -49,10 +70,11 @@ Theorem bitfield_limits_spec h : wf_hint h ->
   bitfield_limits h = Some (limits_of h).
 Proof.
   intros (Hw & Hs & Hd & Hle). unfold bitfield_limits, limits_of.
-  destruct (h_signed h); [reflexivity|].
-  specialize (Hd eq_refl). destruct (h_dom h) as [mn mx]. cbn [fst snd] in *.
-  destruct (Z.geb_spec mn 0); [reflexivity|].
-  destruct (Z.ltb_spec mx 0); [reflexivity|lia].
+  destruct (h_signed h).
+  - cbv zeta. repeat f_equal; lia.
+  - specialize (Hd eq_refl). destruct (h_dom h) as [mn mx]. cbn [fst snd] in *.
+    cbv zeta. split_cmp; cbn [andb orb negb]; cbv zeta beta iota;
+      try (exfalso; lia); repeat f_equal; lia.
 Qed.
 
 Lemma declared_hint_some lo hi : lo <= hi ->
@@ -69,21 +91,25 @@ Theorem hint_representable lo hi h L H : lo <= hi ->
   declared_hint lo hi = Some h -> bitfield_limits h = Some (L, H) ->
   forall v, lo <= v <= hi -> L <= v <= H.
 Proof.
-  intros Hle Hd Hl v Hv. unfold declared_hint in Hd.
-  rewrite dom_to_width_spec in Hd by auto. inversion Hd; subst h; clear Hd.
+  intros Hle Hd Hl v Hv.
+  destruct (declared_hint_some lo hi Hle) as (h' & E & Hwf & _).
+  rewrite E in Hd. inversion Hd; subst h'; clear Hd.
+  rewrite bitfield_limits_spec in Hl by auto.
+  unfold declared_hint in E. rewrite dom_to_width_spec in E by auto.
+  inversion E as [Eh]; clear E.
   pose proof (bit_length_nonneg (absval lo hi)) as Hn.
   pose proof (bit_length_upper (absval lo hi)) as Hu.
   assert (Ha : Z.abs (absval lo hi) = absval lo hi) by (unfold absval; lia).
   rewrite Ha in Hu.
   assert (Hp : 2 ^ bit_length (absval lo hi) <= 2 ^ Z.max 1 (bit_length (absval lo hi)))
     by (apply Z.pow_le_mono_r; lia).
-  unfold bitfield_limits in Hl. cbn [h_width h_signed h_dom] in Hl.
+  unfold limits_of in Hl. subst h. cbn [h_width h_signed h_dom fst snd] in Hl.
   unfold absval in *.
   destruct (Z.ltb_spec lo 0), (Z.geb_spec hi 0); cbn [andb] in Hl.
   - replace (Z.max 1 (bit_length (Z.max (Z.abs lo) (Z.abs hi))) + 1 - 1)
       with (Z.max 1 (bit_length (Z.max (Z.abs lo) (Z.abs hi)))) in Hl by lia.
     inversion Hl; subst; clear Hl. lia.
-  - destruct (Z.geb_spec lo 0); [lia|]. destruct (Z.ltb_spec hi 0); [|lia].
+  - destruct (Z.geb_spec lo 0); [lia|].
     rewrite Z.add_0_r in Hl. inversion Hl; subst; clear Hl. lia.
   - destruct (Z.geb_spec lo 0); [|lia].
     rewrite Z.add_0_r in Hl. inversion Hl; subst; clear Hl. lia.
